@@ -38,6 +38,7 @@ static std::vector<std::vector<std::string> > g_prog;
 static std::map<int, Handle> * g_handles;     // id -> handle; written by the owning thread only while it holds the baton
 
 static int self() { return vs::Sched::self; }
+static bool g_multiKey = false;
 static void evb(int t, const char * op, int a, int n) { std::fprintf(g_out, "{\"e\":\"b\",\"t\":%d,\"op\":\"%s\",\"a\":%d,\"n\":%d}\n", t, op, a, n); }
 static void eve(int t, const char * op, int a, int r) { std::fprintf(g_out, "{\"e\":\"e\",\"t\":%d,\"op\":\"%s\",\"a\":%d,\"r\":%d}\n", t, op, a, r); }
 
@@ -47,7 +48,12 @@ static void pointHook(const char * tag)
 	size_t n = std::strlen(tag);
 	bool racy = n > 7 && std::strcmp(tag + n - 7, ".racy_r") == 0;
 	if(racy) { vs::S->point(tag); return; }
-	if(vs::g_lockset.access(tag, self()) && g_liveWorkers >= 2) {
+	// several callback lists live in one dispatcher when the scenario uses other events: their links are guarded by different mutexes, so the
+	// per-structure lockset would mix them; for the list group only "some policy mutex is held" is demanded then (the map group keeps its lockset)
+	if(g_multiKey && vs::Lockset::group(tag) == 0) {
+		if(vs::g_heldSet[self()].empty() && g_liveWorkers >= 2) { std::fprintf(g_out, "{\"e\":\"ua\",\"t\":%d}\n", self()); vs::S->point(tag); return; }
+	}
+	else if(vs::g_lockset.access(tag, self()) && g_liveWorkers >= 2) {
 		std::fprintf(g_out, "{\"e\":\"ua\",\"t\":%d}\n", self());
 		vs::S->point(tag);
 		return;
@@ -58,7 +64,7 @@ struct Cb
 {
 	int id;
 	void operator() (int) const {
-		if(self() >= 0) { std::fprintf(g_out, "{\"e\":\"vi\",\"t\":%d,\"a\":%d}\n", self(), id); vs::S->point("callback"); }
+		if(id >= 0 && self() >= 0) { std::fprintf(g_out, "{\"e\":\"vi\",\"t\":%d,\"a\":%d}\n", self(), id); vs::S->point("callback"); }
 	}
 };
 static Handle handleOf(int id) { auto it = g_handles->find(id); return it == g_handles->end() ? Handle() : it->second; }
@@ -83,6 +89,7 @@ static void doInvoke() { obj->dispatch(1, 7); }
 template <typename F> static void doForEach(F f) { obj->forEach(1, f); }
 #endif
 
+static thread_local Handle t_other;
 static int idOf(const Obj::Callback & cb) { const Cb * c = cb.target<Cb>(); return c ? c->id : -1; }
 
 static void runOp(int t, const std::string & op, int index)
@@ -103,6 +110,13 @@ static void runOp(int t, const std::string & op, int index)
 		doForEach([t](const Handle &, const Obj::Callback & cb) { std::fprintf(g_out, "{\"e\":\"vi\",\"t\":%d,\"a\":%d}\n", t, idOf(cb)); vs::S->point("enum"); });
 		eve(t, "f", 0, 0);
 	}
+#if W_OBJ != 0
+	// the same calls on ANOTHER event of the same dispatcher: they go through the shared map (insertion of a new key, lookups) while the calls on
+	// event 1 run; what they do to event 2's own list is only judged locally (a thread removes the listener it added itself: must succeed)
+	else if(k == 'x') { evb(t, "x", 0, id); t_other = obj->appendListener(2 + t, Cb{-1}); eve(t, "x", 0, 0); }      // every thread brings its own new key
+	else if(k == 'y') { evb(t, "y", 0, 0); bool r = obj->removeListener(2 + t, t_other); eve(t, "y", 0, r ? 1 : 0); }
+	else if(k == 'z') { evb(t, "z", 0, 0); obj->dispatch(2 + t, 7); eve(t, "z", 0, 0); }
+#endif
 	else { std::fprintf(stderr, "unknown op %s\n", op.c_str()); std::exit(2); }
 }
 
@@ -171,6 +185,7 @@ int main(int argc, char ** argv)
 	if(argc < 4) { std::fprintf(stderr, "usage: cc_run <out> <scenario> replay|model s... | dfs <bound> <max> | rand <seed> <n>\n"); return 2; }
 	g_out = std::fopen(argv[1], "w");
 	if(! g_out || ! parseScenario(argv[2])) return 2;
+	for(const auto & th : g_prog) for(const std::string & op : th) if(op[0] == 'x' || op[0] == 'y' || op[0] == 'z') g_multiKey = true;
 	static char buf[1 << 20];
 	std::setvbuf(g_out, buf, _IOFBF, sizeof(buf));
 	eventpp_verif::pointHook() = &pointHook;
